@@ -183,3 +183,85 @@ pub fn catch<T>(f: impl FnOnce() -> T + std::panic::UnwindSafe) -> Option<T> {
 pub fn is_shortdeck() -> bool {
     cfg!(feature = "shortdeck")
 }
+
+/// Independent poker-rules oracle (written from the rules, not from the engine):
+/// best five-card hand of 5..7 cards as a totally ordered key.
+pub mod poker {
+    /// category indices in *rules* order for the standard deck:
+    /// 0 high card, 1 pair, 2 two pair, 3 trips, 4 straight, 5 flush, 6 full house, 7 quads, 8 straight flush.
+    /// In the short-deck build flush (6) outranks full house (5).
+    pub fn value5(cards: &[u8; 5], short: bool) -> (u8, [u8; 5]) {
+        let mut ranks: Vec<u8> = cards.iter().map(|c| c / 4).collect();
+        ranks.sort_unstable_by(|a, b| b.cmp(a));
+        let flush = cards.iter().all(|c| c % 4 == cards[0] % 4);
+        let mut cnt = [0u8; 13];
+        for r in &ranks {
+            cnt[*r as usize] += 1;
+        }
+        // groups ordered by (multiplicity, rank) descending
+        let mut groups: Vec<(u8, u8)> = (0..13u8).filter(|r| cnt[*r as usize] > 0).map(|r| (cnt[r as usize], r)).collect();
+        groups.sort_unstable_by(|a, b| b.cmp(a));
+        let distinct = groups.len() == 5;
+        let mut straight_top: Option<u8> = None;
+        if distinct {
+            if ranks[0] - ranks[4] == 4 {
+                straight_top = Some(ranks[0]);
+            } else if !short && ranks == vec![12, 3, 2, 1, 0] {
+                straight_top = Some(3); // A-2-3-4-5, five high
+            } else if short && ranks == vec![12, 7, 6, 5, 4] {
+                straight_top = Some(7); // A-6-7-8-9, nine high
+            }
+        }
+        let mut tb = [0u8; 5];
+        for (i, g) in groups.iter().enumerate() {
+            tb[i] = g.1 + 1;
+        }
+        let (fh, fl) = if short { (5, 6) } else { (6, 5) };
+        let cat = if let (Some(t), true) = (straight_top, flush) {
+            tb = [t + 1, 0, 0, 0, 0];
+            8
+        } else if groups[0].0 == 4 {
+            7
+        } else if groups[0].0 == 3 && groups[1].0 == 2 {
+            fh
+        } else if flush {
+            fl
+        } else if let Some(t) = straight_top {
+            tb = [t + 1, 0, 0, 0, 0];
+            4
+        } else if groups[0].0 == 3 {
+            3
+        } else if groups[0].0 == 2 && groups[1].0 == 2 {
+            2
+        } else if groups[0].0 == 2 {
+            1
+        } else {
+            0
+        };
+        (cat, tb)
+    }
+    /// best five of the cards set in `hand` (5..=7 cards), by enumeration of all 5-subsets
+    pub fn best5(hand: u64, short: bool) -> (u8, [u8; 5]) {
+        let cards: Vec<u8> = (0..52u8).filter(|c| hand >> c & 1 == 1).collect();
+        let n = cards.len();
+        assert!((5..=7).contains(&n));
+        let mut best = (0u8, [0u8; 5]);
+        let mut first = true;
+        for a in 0..n {
+            for b in a + 1..n {
+                for c in b + 1..n {
+                    for d in c + 1..n {
+                        for e in d + 1..n {
+                            let v = value5(&[cards[a], cards[b], cards[c], cards[d], cards[e]], short);
+                            if first || v > best {
+                                best = v;
+                                first = false;
+                            }
+                        }
+                    }
+                }
+            }
+        }
+        best
+    }
+}
